@@ -21,7 +21,7 @@ ASSUMPTIONS = ["gated cells are compared after each settled step of the same inp
 
 
 def budget(tier):
-    return {"examples": 700 if tier == "quick" else 12000, "wall_s": 110 if tier == "quick" else 1500}
+    return {"examples": 700 if tier == "quick" else 12000, "wall_s": 110 if tier == "quick" else 900}
 
 
 @st.composite
